@@ -251,6 +251,25 @@ pub fn run(ctx: &Ctx, rep: &mut Report) {
             }
         }
     }
+    // thorough tier, std build, one shard: 2^31 + 8 characters (4 GiB of memory for input and
+    // output): a 32-bit signed character index overflows here. All 'w' gives all-ones output,
+    // which is checked without the bit-per-byte reference.
+    if ctx.thorough() && mon::CFG == "std" && ctx.shard == 0 {
+        let n = (1usize << 31) + 8;
+        let s = vec![b'w'; n];
+        rep.eval();
+        rep.class("len%4=0 fill=0 invalid=none last=ones long=2^31".to_string());
+        match mon::guard(|| ais::messages::unarmor(&s, 0).ok().map(|v| (v.len(), v.iter().position(|b| *b != 0xff)))) {
+            Err(p) => rep.violation(PID, format!("panic@{}", p.loc), format!("unarmor of 2^31 + 8 characters panicked: '{}' at {}", p.msg, p.loc), || J::s("vec![b'w'; (1 << 31) + 8], fill 0")),
+            Ok(None) => rep.violation(PID, "valid-rejected".into(), "unarmor of 2^31 + 8 valid characters returned an error".into(), || J::s("vec![b'w'; (1 << 31) + 8], fill 0")),
+            Ok(Some((len, bad))) => {
+                if len != n / 4 * 3 || bad.is_some() {
+                    rep.violation(PID, "wrong-bits".into(), format!("unarmor of 2^31 + 8 'w': {} bytes (expected {}), first byte that is not 0xff at {:?}", len, n / 4 * 3, bad), || J::s("vec![b'w'; (1 << 31) + 8], fill 0"));
+                }
+            }
+        }
+        rep.count("two-gib-probe");
+    }
     rep.require("expect_ok");
     rep.require("expect_err");
 }
